@@ -3,6 +3,7 @@ package worlds
 import (
 	"context"
 	"fmt"
+	"io"
 	"sort"
 	"strings"
 	"time"
@@ -15,6 +16,7 @@ import (
 	"google.golang.org/grpc/status"
 
 	"github.com/temporalio/s2s-proxy/config"
+	"github.com/temporalio/s2s-proxy/encryption"
 	"github.com/temporalio/s2s-proxy/metrics"
 	"github.com/temporalio/s2s-proxy/transport/grpcutil"
 	"github.com/temporalio/s2s-proxy/transport/mux"
@@ -40,6 +42,10 @@ type MuxProfile struct {
 	// aimed at sessions that have just come up - so that a removal racing the announcement of
 	// the addition leaves its mark on the endpoint set until the end of the chaos phase.
 	Race bool
+	// TLS (C19): the mux endpoint (receiver or establisher provider, as assembled by
+	// NewGRPCMuxManager from the connection's TLS settings) is configured with CA
+	// verification; every peer connection presents a credential of a drawn kind.
+	TLS bool
 }
 
 type MuxConfig struct {
@@ -114,6 +120,8 @@ type MuxWorld struct {
 	noHeal     bool // C11 shrinking-set phase: the peer neither accepts nor dials
 	stalled    []*simnet.Pair
 	dirty      map[int]bool // connections that were ever partitioned, black-holed or write-stalled
+	tls        *muxTLS
+	everReg    map[string]bool // peer-sess tags of connections that the proxy has ever had registered as a session
 }
 
 func (w *MuxWorld) violate(prop, clause, format string, args ...any) {
@@ -166,16 +174,23 @@ func NewMuxWorld(s *simrt.Sim, prof MuxProfile) (*MuxWorld, error) {
 	proxySrv := grpc.NewServer()
 	adminservice.RegisterAdminServiceServer(proxySrv, &echoAdmin{tag: "proxy"})
 	cd := config.ClusterDefinition{MuxCount: c.MuxCount}
+	var tlsCfg encryption.TLSConfig
+	if prof.TLS {
+		if w.tls, err = newMuxTLS(s, c.Role); err != nil {
+			return nil, err
+		}
+		tlsCfg = w.tls.proxyCfg
+	}
 	if c.Role == "client" {
 		cd.ConnectionType = config.ConnTypeMuxClient
-		cd.MuxAddressInfo = config.TCPTLSInfo{ConnectionString: w.peerAddr}
+		cd.MuxAddressInfo = config.TCPTLSInfo{ConnectionString: w.peerAddr, TLSConfig: tlsCfg}
 		w.peerLis, err = w.net.Listen(w.peerAddr)
 		if err != nil {
 			return nil, err
 		}
 	} else {
 		cd.ConnectionType = config.ConnTypeMuxServer
-		cd.MuxAddressInfo = config.TCPTLSInfo{ConnectionString: w.proxyAddr}
+		cd.MuxAddressInfo = config.TCPTLSInfo{ConnectionString: w.proxyAddr, TLSConfig: tlsCfg}
 	}
 	w.mgr, err = mux.NewGRPCMuxManager(w.lifetime, "x", cd, w.mcc, proxySrv, log.NewNoopLogger())
 	if err != nil {
@@ -192,10 +207,15 @@ func (w *MuxWorld) addPeerSession(conn *simnet.Conn, pair *simnet.Pair, client b
 	cfg.LogOutput = discard{}
 	var sess *yamux.Session
 	var err error
+	var rw io.ReadWriteCloser = conn
+	if w.tls != nil {
+		// the dialer is the TLS client: the peer is the TLS client when it dialled the proxy
+		rw = w.tls.wrap(w.s, conn, fmt.Sprintf("peer-sess-%d", pair.ID), client)
+	}
 	if client {
-		sess, err = yamux.Client(conn, cfg)
+		sess, err = yamux.Client(rw, cfg)
 	} else {
-		sess, err = yamux.Server(conn, cfg)
+		sess, err = yamux.Server(rw, cfg)
 	}
 	if err != nil {
 		_ = conn.Close()
@@ -248,7 +268,13 @@ func (w *MuxWorld) livePeers() []*peerSess {
 
 // invariant: the pool never exceeds its limit (checked at every quiescent point)
 func (w *MuxWorld) checkLimit() {
-	ids, _, _ := w.proxySessions()
+	ids, _, tags := w.proxySessions()
+	if w.everReg == nil {
+		w.everReg = map[string]bool{}
+	}
+	for _, t := range tags {
+		w.everReg[t] = true
+	}
 	if len(ids) > w.maxSeen {
 		w.maxSeen = len(ids)
 	}
@@ -552,6 +578,9 @@ func RunMux(s *simrt.Sim, prof MuxProfile) *Result {
 		if res.Crash != nil {
 			w.violate("C10", "crash", "unrecovered panic in %s: %s", res.Crash.Task, res.Crash.Value)
 		}
+		if w.tls != nil {
+			w.tls.judge(w)
+		}
 		res.Violations = w.viol
 		nf := 0
 		for _, v := range w.faults {
@@ -560,6 +589,10 @@ func RunMux(s *simrt.Sim, prof MuxProfile) *Result {
 		res.Nontrivial = w.maxSeen > 0 && (prof.RPCs && w.rpcOK > 0 || !prof.RPCs && nf > 0)
 		if prof.Race {
 			res.Nontrivial = w.maxSeen > 0 && nf > 0
+		}
+		if prof.TLS {
+			res.Nontrivial = len(w.tls.cases) > 0
+			res.Config = map[string]any{"mux": w.cfg, "tls_verify": w.tls.verify, "cases": w.tls.cases}
 		}
 		res.Notes = map[string]string{"max_sessions": fmt.Sprint(w.maxSeen), "rpcs_ok": fmt.Sprint(w.rpcOK), "served": fmt.Sprint(w.served)}
 		return res
